@@ -90,6 +90,9 @@ type Sys struct {
 	// RefIDs identifies messages by (sender, type, emission index) instead of by content: needed when
 	// message values are not reproducible between replays (ECDSA signing draws randomness concurrently).
 	RefIDs bool
+	// OnLiveState is called by the joint explorers with the records of all nodes after every step
+	// (under the explorer's lock in the parallel deviation mode).
+	OnLiveState func(locals []*LState, trace []Event)
 	Observe func(nw *netrun.Network, p int) map[string]string
 	KeepNet bool
 
@@ -104,9 +107,12 @@ type Sys struct {
 	bySet            []map[string]string
 }
 
-func NewSys(mk func() *netrun.Network) *Sys {
+func NewSys(mk func() *netrun.Network) *Sys { return NewSysObs(mk, nil) }
+
+// NewSysObs installs the per-state observer before the initial states are recorded.
+func NewSysObs(mk func() *netrun.Network, obs func(nw *netrun.Network, p int) map[string]string) *Sys {
 	nw := mk()
-	s := &Sys{Mk: mk, N: len(nw.Nodes), Msgs: map[string]*MsgInfo{}}
+	s := &Sys{Mk: mk, N: len(nw.Nodes), Msgs: map[string]*MsgInfo{}, Observe: obs}
 	s.Tabs = make([][]*LState, s.N)
 	s.idx = make([]map[string]*LState, s.N)
 	s.bySet = make([]map[string]string, s.N)
@@ -303,6 +309,7 @@ type Options struct {
 	OnLocal    func(s *Sys, prev, cur *LState, e Event)
 	OnGlobal   func(s *Sys, g *GState) // every reachable global state
 	OnTerminal func(s *Sys, g *GState) // no enabled event
+	ResPtr     **Result                // set to the result under construction before callbacks run
 }
 
 type Result struct {
@@ -344,6 +351,9 @@ func (s *Sys) Explore(opt Options) *Result {
 		opt.Workers = 1
 	}
 	res := &Result{states: map[string]*GState{}}
+	if opt.ResPtr != nil {
+		*opt.ResPtr = res
+	}
 	init := &GState{Locals: make([]int, s.N)}
 	init.key = gkey(init.Locals, 0)
 	res.states[init.key] = init
@@ -448,6 +458,9 @@ func (r *Result) Trace(g *GState) []Event {
 	}
 	return out
 }
+
+// TraceOfKey is Trace for callbacks that run while the search is in progress.
+func (r *Result) TraceOfKey(g *GState) []Event { return r.Trace(g) }
 
 func TraceStrings(t []Event) []string {
 	out := make([]string, len(t))
